@@ -47,8 +47,13 @@ fn crowded_recs(rng: &mut Rng, lang: &str, n: usize, corpus: &[Rec], distinct: b
     let v = gen::vocab(lang);
     let k = rng.range(3, 10);
     let pool: Vec<&str> = (0..k).map(|_| *rng.pick(&v)).collect();
-    let mut ratings: Vec<usize> = (0..n).map(|i| if distinct { i * 5 + 1 + rng.below(5) } else { rng.below(3) }).collect();
-    gen::scale_ratings(rng, &mut ratings);
+    // distinct ratings: spread out, or dense (consecutive integers from some base: every neighbour one apart)
+    let dense = distinct && rng.chance(1, 3);
+    let base = if dense { *rng.pick(&[0usize, 1, 1000, (1 << 24) - 3, (1usize << 31) - 1 - 700]) } else { 0 };
+    let mut ratings: Vec<usize> = (0..n).map(|i| if dense { base + i } else if distinct { i * 5 + 1 + rng.below(5) } else { rng.below(3) }).collect();
+    if !dense {
+        gen::scale_ratings(rng, &mut ratings);
+    }
     rng.shuffle(&mut ratings);
     let odd = rng.chance(1, 3);
     let mut idrng = rng.clone();
